@@ -376,6 +376,18 @@ Definition process_events (dir : list file) (o : oracle)
 End Send.
 
 (* ------------------------------------------------------------------------------------ *)
+(* what the host has seen when the reader is stopped (EventReader::start: tokio::select! drops   *)
+(* loop_reader at an await point when the cancellation token fires, then only reports STOPPED):  *)
+(* a prefix of the POST sequence.  An upload is accepted when the host answered 2xx.            *)
+(* ------------------------------------------------------------------------------------ *)
+Definition round_posts (r : round) : list (tdata * bool) :=
+  map (fun a => (r_batch r, snd a)) (r_attempts r).
+Definition post_trace (rs : list round) : list (tdata * bool) := flat_map round_posts rs.
+Definition accepted (tr : list (tdata * bool)) : list tevent := flat_map fst (filter snd tr).
+(* stopped after the first n POSTs *)
+Definition stopped_after (n : nat) (rs : list round) : list (tdata * bool) := firstn n (post_trace rs).
+
+(* ------------------------------------------------------------------------------------ *)
 (* a small parser for exactly the document shape emitted (used to state well-formedness) *)
 (* ------------------------------------------------------------------------------------ *)
 Fixpoint strip_prefix (p s : bytes) : option bytes :=
